@@ -16,7 +16,9 @@ def digests(prop, first, count):
     if n <= 15:
         from .poolsim import generate_and_run
         for s in range(first, first + count):
-            sim = generate_and_run(s, prop, None, phased=(s % 3 == 2))      # every third seed: a phased scenario
+            # every third seed a phased scenario, some a scale scenario (BigGen / ScaleGen)
+            mode = "huge" if s % 11 == 5 else ("big" if s % 11 == 7 else (s % 3 == 2))
+            sim = generate_and_run(s, prop, None, phased=mode)
             out.append(f"{prop} {s} {sim.digest()} {len(sim.viol)}")
     elif n <= 19:
         from . import ctl_engine
